@@ -2,12 +2,13 @@
 //! abstract model (completed labels + open label), generic over the octets
 //! builder (Vec<u8>, BytesMut, octseq Array<N>).
 use super::refs::*;
+use super::reps::{self, WithName, WithRelName};
 use crate::engine::*;
 use crate::gen::name as gn;
 use crate::gen::*;
 use crate::{vensure, vfail};
 use arbitrary::Unstructured;
-use domain::base::name::{Name, NameBuilder, PushError, PushNameError, RelativeName};
+use domain::base::name::{Name, NameBuilder, PushError, PushNameError, ToName, ToRelativeName};
 use domain::base::scan::Symbol;
 use octseq::builder::{EmptyBuilder, FreezeBuilder, IntoBuilder, OctetsBuilder};
 
@@ -286,6 +287,23 @@ impl From<PushNameError> for PushErr {
     }
 }
 
+/// `append_origin` / `append_name` with the argument in whatever
+/// representation `reps::with_abs` / `with_rel` hands over.
+pub struct AppendOrigin<B>(pub NameBuilder<B>);
+impl<B: TB> WithName for AppendOrigin<B> {
+    type Out = Result<Name<B::Octets>, PushNameError>;
+    fn call<N: ToName>(self, n: &N) -> Self::Out {
+        self.0.append_origin(n)
+    }
+}
+pub struct AppendName<'a, B>(pub &'a mut NameBuilder<B>);
+impl<B: TB> WithRelName for AppendName<'_, B> {
+    type Out = Result<(), PushNameError>;
+    fn call<N: ToRelativeName>(self, n: &N) -> Self::Out {
+        self.0.append_name(n)
+    }
+}
+
 /// Settles one single-step operation whose content effect is "add `s` to the
 /// open label or start a new label with it" (`label` = complete label).
 #[allow(clippy::too_many_arguments)]
@@ -376,7 +394,7 @@ where
 /// PREFIX of the operation's effect (the steps that went in before the
 /// failing one) but nothing else: what was built before must be intact.
 /// `allowed` lists the states after 0, 1, 2, ... steps.
-fn resync_among<B: TB>(op: &str, b: &NameBuilder<B>, m: &mut Model, allowed: &[Model], t: &[String]) -> CaseResult
+pub fn resync_among<B: TB>(op: &str, b: &NameBuilder<B>, m: &mut Model, allowed: &[Model], t: &[String]) -> CaseResult
 where
     B::Octets: AsRef<[u8]>,
 {
@@ -660,13 +678,19 @@ where
                     n = w.len();
                     key.push(n as u64);
                 }
-                let rel = match RelativeName::from_octets(w.clone()) {
-                    Ok(r) => r,
-                    Err(e) => vfail!("relative-from_octets:rejected-valid-name", "RelativeName::from_octets refused valid {} octets: {e}", w.len()),
-                };
+                // the representation of the argument: flat, behind the `&N`
+                // blanket impl, or a chain split at label boundaries (drawn
+                // last, 0 = owned flat name)
+                let rep = pick(u, reps::REL_REPS.len());
+                let (s1, s2) = if rep >= 3 { reps::splits(&w, false, pick(u, 8), pick(u, 8)) } else { (0, 0) };
+                key.push(rep as u64);
                 let fits = m.len() + n <= 254;
                 if near(m.len() + n, 254) { nontrivial = true; }
-                let r = b.append_name(&rel);
+                let r = reps::with_rel(&w, rep, s1, s2, AppendName(&mut b))?;
+                let flat = if reps::rel_rep_is_flat(rep) { "flat" } else { "nonflat" };
+                if near(m.len() + n, 254) {
+                    ctx.class(format!("{}:append_name:{flat}:near-limit:{}", cfg.tag, if r.is_ok() { "ok" } else { "err" }));
+                }
                 match r {
                     Ok(()) if fits => {
                         m.end_label();
@@ -674,14 +698,14 @@ where
                         same_state("append_name", &b, &m, "state-differs-from-model")?;
                         ctx.class(format!("{}:append_name:ok", cfg.tag));
                         if failed_before { ctx.class(format!("{}:ok-after-failed-op", cfg.tag)); }
-                        t.push(format!("append_name({n})=ok"));
+                        t.push(format!("append_name({n},{})=ok", reps::REL_REPS[rep]));
                         Flow::Continue
                     }
                     Ok(()) => {
                         let by_one = m.len() + n == 255;
                         ctx.report(Violation::new(
                             if by_one { "append_name:name-too-long-by-one" } else { "append_name:accepted-over-limit" },
-                            format!("append_name of {n} octets returned Ok at len {}\nops: {}", before.len(), render(&t)),
+                            format!("append_name of {n} octets ({}) returned Ok at len {}\nops: {}", reps::REL_REPS[rep], before.len(), render(&t)),
                         ))?;
                         Flow::Stop
                     }
@@ -707,14 +731,14 @@ where
                             }
                         }
                         failed_before = true;
-                        t.push(format!("append_name({n})=ShortBuf"));
+                        t.push(format!("append_name({n},{})=ShortBuf", reps::REL_REPS[rep]));
                         Flow::Continue
                     }
                     Err(e) => {
                         ctx.class(format!("{}:append_name:{}", cfg.tag, if fits { "overstrict" } else { "rejected-name" }));
                         same_state("append_name", &b, &m, "failed-op-changed-state")?;
                         failed_before = true;
-                        t.push(format!("append_name({n})={e:?}"));
+                        t.push(format!("append_name({n},{})={e:?}", reps::REL_REPS[rep]));
                         Flow::Continue
                     }
                 }
@@ -873,17 +897,24 @@ where
                 key.push(n as u64);
                 let mut w = rel_of_len(u, n - 1);
                 w.push(0);
-                let origin = match Name::from_octets(w.clone()) {
-                    Ok(o) => o,
-                    Err(e) => vfail!("name-from_octets:rejected-valid-name", "Name::from_octets refused valid {} octets: {e}", w.len()),
-                };
+                // the representation of the origin: flat (Name, uncompressed
+                // ParsedName), behind the `&N` blanket impl, a Chain, a
+                // compressed ParsedName, an UncertainName chain
+                let rep = pick(u, reps::ABS_REPS.len());
+                let (s1, s2) = if rep >= 4 { reps::splits(&w, true, pick(u, 8), pick(u, 8)) } else { (0, 0) };
+                key.push(rep as u64);
                 let fits = m.len() + n <= 255;
                 if near(m.len() + n, 255) { nontrivial = true; }
-                match b.clone().append_origin(&origin) {
+                let res = reps::with_abs(&w, rep, s1, s2, AppendOrigin(b.clone()))?;
+                let flat = if reps::abs_rep_is_flat(rep) { "flat" } else { "nonflat" };
+                if near(m.len() + n, 255) {
+                    ctx.class(format!("{}:append_origin:{flat}:near-limit:{}", cfg.tag, if res.is_ok() { "ok" } else { "err" }));
+                }
+                match res {
                     Ok(name) => {
                         if !fits {
                             let by_one = m.len() + n == 256;
-                            vfail!(if by_one { "append_origin:name-too-long-by-one" } else { "append_origin:accepted-over-limit" }, "append_origin of {n} octets returned Ok at len {} -> {} octets\nops: {}", m.len(), name.len(), render(&t));
+                            vfail!(if by_one { "append_origin:name-too-long-by-one" } else { "append_origin:accepted-over-limit" }, "append_origin of {n} octets ({}) returned Ok at len {} -> {} octets\nops: {}", reps::ABS_REPS[rep], m.len(), name.len(), render(&t));
                         }
                         check_value("append_origin", Kind::Abs, name.as_slice())?;
                         let mut want = m.wire();
@@ -899,7 +930,7 @@ where
                         ctx.class(format!("{}:append_origin:{}", cfg.tag, if fits { "overstrict" } else { "rejected-name" }));
                     }
                 }
-                t.push(format!("append_origin({n})"));
+                t.push(format!("append_origin({n},{})", reps::ABS_REPS[rep]));
                 Flow::Continue
             }
             _ => {
